@@ -2250,6 +2250,24 @@ class Recipe:
         if self.locked:
             raise RuntimeError("Recipe has already been baked.")
 
+        # A bake that is refused part-way (a step turns out to be infeasible) must leave the recipe as it was:
+        # the steps are executed against self.results and rewrite their own records as they go.
+        saved_recipe = (dict(self.results), set(self.used), dict(self.stages), self.current_stage)
+        saved_steps = [(step, {key: (copy(value) if isinstance(value, (list, set, dict)) else value)
+                               for key, value in vars(step).items()}) for step in self.steps]
+        try:
+            return self._bake()
+        except BaseException:
+            self.results, self.used, self.stages, self.current_stage = saved_recipe
+            for step, attributes in saved_steps:
+                vars(step).clear()
+                vars(step).update(attributes)
+            raise
+
+    def _bake(self) -> dict[str, Container | Plate]:
+        """
+        Executes the steps of the recipe (see bake).
+        """
         # Every declared object must be used by some step. This is checked before anything is executed: a bake that
         # is refused for this reason must leave the recipe as it was, so that it can be baked after the missing
         # step has been added.
